@@ -3,6 +3,7 @@ import asyncio
 import re
 import string
 import sys
+from collections.abc import Callable
 from contextlib import suppress
 from enum import IntEnum
 from re import Pattern
@@ -689,7 +690,7 @@ class HttpRequestParser(HttpParser[RawRequestMessage]):
         if method == "CONNECT":
             # authority-form,
             # https://datatracker.ietf.org/doc/html/rfc7230#section-5.3.3
-            url = URL.build(authority=path, encoded=True)
+            url = self._authority_url(lambda: URL.build(authority=path, encoded=True), path)
         elif path.startswith("/"):
             # origin-form,
             # https://datatracker.ietf.org/doc/html/rfc7230#section-5.3.1
@@ -712,7 +713,7 @@ class HttpRequestParser(HttpParser[RawRequestMessage]):
         else:
             # absolute-form for proxy maybe,
             # https://datatracker.ietf.org/doc/html/rfc7230#section-5.3.2
-            url = URL(path, encoded=True)
+            url = self._authority_url(lambda: URL(path, encoded=True), path)
             if not url.absolute:
                 # authority-form is only allowed with CONNECT
                 # https://www.rfc-editor.org/info/rfc9112/#section-3.2.3-1
@@ -751,6 +752,23 @@ class HttpRequestParser(HttpParser[RawRequestMessage]):
             chunked,
             url,
         )
+
+    @staticmethod
+    def _authority_url(build: Callable[[], URL], path: str) -> URL:
+        """Build a URL that carries an authority, rejecting an invalid one.
+
+        yarl raises ValueError for a malformed authority, for the host
+        immediately and for the port only when it is first looked at; both must
+        end as a 400, not as a ValueError in whichever code touches them first.
+        """
+        try:
+            url = build()
+            url.host, url.port  # validated lazily by yarl
+        except ValueError:
+            raise InvalidURLError(
+                path.encode(errors="surrogateescape").decode("latin1")
+            ) from None
+        return url
 
     def _is_chunked_te(self, te: str) -> bool:
         # https://www.rfc-editor.org/rfc/rfc9112#section-7.1-3
